@@ -427,7 +427,8 @@ def _tensors(ctx, n):
             t[[i for i in range(6) if mask >> i & 1]] = 0
             out.append(t)
     while len(out) < n:
-        t = rng.normal(size=6) * rng.choice([1.0, 100.0, 1e-3])
+        # the unit is the user's: also numbers of the order 1e-9, 1e-12 and 1e9 (added after seed C17-d compared a sign indicator with np.isclose(., 0))
+        t = rng.normal(size=6) * rng.choice([1.0, 100.0, 1e-3, 1e-9, 1e-12, 1e9])
         if rng.random() < 0.2:
             t[3:] = 0
         if rng.random() < 0.15:
@@ -449,7 +450,7 @@ def b_eig(ctx):
     rng = np.random.default_rng(ctx.seed)
     for t in tens:
         s11, s22, s33, s12, s13, s23 = t
-        scale = max(1.0, np.abs(t).max())
+        scale = float(np.abs(t).max()) or 1.0          # all tolerances are relative to the size of the tensor
         w = eqs.eigenval(*t)
         A = np.array([[s11, s12, s13], [s12, s22, s23], [s13, s23, s33]])
         I1 = np.trace(A)
